@@ -35,7 +35,7 @@ m = {
  "setup_cmd": "./setup.sh",
  "hooks": {
    "guard": "verif",
-   "enable": "harness files under /verif/harness are injected by overlay (go/packages Overlay for the engine, go test -overlay -tags verif for native replays); nothing is written into /repo",
+   "enable": "nothing is written into /repo: harness files under /verif/harness (build tag verif) are injected by overlay (go/packages Overlay for the engine, go test -overlay -tags verif for native replays). The same overlay carries copies of association.go and stream.go regenerated from /repo's current source on every run with four textual substitutions (patchedSources in /verif/engine/main.go, DESIGN 1.3 and 1.10): the three `go a.readLoop()/writeLoop()/timerLoop()` statements become vGo(...), the lock fields Association.lock, Association.timerMu, Stream.lock, Stream.writeLock are retyped to rank-tracking wrappers around the same sync mutexes, and the read-deadline goroutine of Stream.SetReadDeadline is queued through vSpawnCh",
    "baseline_off_cmd": "cd /repo && go test -vet=off -count=1 -timeout 25m ./...",
    "source_commits": [],
    "add_only": True
